@@ -324,4 +324,42 @@ def mrun (shared : Bool) (addr : Nat → Str) (steps : List MStep) : MState :=
 def clientAuth (bufToken : Str) (file : Option (List Str)) (a : Str) : Except ChainErr AuthResult :=
   chainAuth bufToken file a
 
+/-! ## Redirects (section R of the harness)
+
+A registry may answer with a 3xx; the `http.Client` of `bufcli.NewConnectClientConfig` follows it.
+Two mechanisms decide what the NEXT request carries:
+
+* net/http (`shouldCopyHeaderOnRedirect`, go1.26): the Authorization header of the FIRST request is
+  copied to a hop whose host is the first host or a subdomain of it (string comparison of the host
+  names, no case folding); once a hop lies outside, the header stays stripped for the rest of the
+  chain (sticky);
+* buf (`bufcli.checkRedirect`, fix 018ad7b): the header is deleted from a hop whose host is not
+  the original one (`strings.EqualFold`).  This deletion concerns the one request only. -/
+
+def lowerAscii (c : Char) : Char :=
+  if 'A'.toNat ≤ c.toNat ∧ c.toNat ≤ 'Z'.toNat then Char.ofNat (c.toNat + 32) else c
+
+/-- `strings.EqualFold` on host names (ASCII). -/
+def eqFoldHost (a b : Str) : Bool := a.map lowerAscii == b.map lowerAscii
+
+/-- net/http `isDomainOrSubdomain sub parent` (host names without brackets). -/
+def isDomainOrSubdomain (sub parent : Str) : Bool :=
+  sub == parent || ('.' :: parent).isSuffixOf sub
+
+/-- The Authorization header (token) of every hop of a redirect chain, given the header of the
+    first request (`first`, for host `orig`).  `stripped`: net/http already left the site. -/
+def hopHeaders (first : Option Str) (orig : Str) : List Str → Bool → List (Option Str)
+  | [], _ => []
+  | h :: rest, stripped =>
+    let stripped2 := stripped || !(isDomainOrSubdomain h orig)
+    let hdr := if stripped2 then none else if eqFoldHost h orig then first else none
+    hdr :: hopHeaders first orig rest stripped2
+
+/-- The same chain WITHOUT buf's `checkRedirect` (the code before fix 018ad7b): net/http alone. -/
+def hopHeadersStdlibOnly (first : Option Str) (orig : Str) : List Str → Bool → List (Option Str)
+  | [], _ => []
+  | h :: rest, stripped =>
+    let stripped2 := stripped || !(isDomainOrSubdomain h orig)
+    (if stripped2 then none else first) :: hopHeadersStdlibOnly first orig rest stripped2
+
 end BufModel.Token
